@@ -5,7 +5,6 @@ from typing import Any, Callable
 from . import errno
 from pycoin.coins.SolutionChecker import ScriptError
 
-from .flags import VERIFY_MINIMALDATA
 
 
 def do_OP_VERIFY(vm: Any) -> None:
@@ -31,7 +30,9 @@ def do_OP_PICK(vm: Any) -> None:
     >>> print(s)
     [b'a', b'b', b'c', b'd', b'b']
     """
-    v = vm.pop_nonnegative()
+    v = pop_check_bounds(vm)
+    if v < 0:
+        raise ScriptError("unexpectedly got negative value", errno.INVALID_STACK_OPERATION)
     vm.append(vm[-v - 1])
 
 
@@ -42,7 +43,9 @@ def do_OP_ROLL(vm: Any) -> None:
     >>> print(s)
     [b'a', b'c', b'd', b'b']
     """
-    v = vm.pop_nonnegative()
+    v = pop_check_bounds(vm)
+    if v < 0:
+        raise ScriptError("unexpectedly got negative value", errno.INVALID_STACK_OPERATION)
     vm.append(vm.pop(-v - 1))
 
 
@@ -186,7 +189,7 @@ def do_OP_WITHIN(vm: Any) -> None:
     >>> print(s == [b''])
     True
     """
-    v3, v2, v1 = [vm.pop_int() for i in range(3)]
+    v3, v2, v1 = [pop_check_bounds(vm) for i in range(3)]
     ok = v2 <= v1 < v3
     vm.append(vm.bool_to_script_bytes(ok))
 
@@ -211,11 +214,7 @@ def do_OP_NOT(vm: Any) -> None:
 
 
 def do_OP_0NOTEQUAL(vm: Any) -> None:
-    vm.push_int(
-        vm.bool_from_script_bytes(
-            vm.pop(), require_minimal=vm.flags & VERIFY_MINIMALDATA
-        )
-    )
+    vm.append(vm.bool_to_script_bytes(pop_check_bounds(vm) != 0))
 
 
 """
